@@ -1081,6 +1081,13 @@ def _codec(I, self, args, kw, fr, site):
 def _startswith(I, self, args, kw, fr, site):
     st = I.st
     p = args[0]
+    if isinstance(p, VTuple):
+        # a tuple of candidates: true when any one of them matches (CPython tries them in order, no side effects)
+        rs = [_startswith(I, self, [q] + list(args[1:]), kw, fr, site).t for q in p.items]
+        if any(r is True for r in rs):
+            return VBool(True)
+        rs = [r for r in rs if r is not False]
+        return VBool(simp(z3.Or(*rs)) if rs else False)
     c, cp = ropes.conc_value(self), ropes.conc_value(p)
     ends = "call(endswith)" in site
     if c is not None and cp is not None:
